@@ -37,14 +37,25 @@ theorem C11_export_exact (cfg : Config) (ops : List Op) (hc : ∀ op ∈ ops, op
              tgt := (lastVote (run (init cfg []) ops).attLog k).tgt } :=
   export_exact cfg ops hc k
 
-/-- … and the last released is the highest released, in each dimension (any history). -/
-theorem C11_last_is_highest (cfg : Config) (ops : List Op) (k : Bytes) :
+/-- … and the last released is the highest released, in each dimension (any history, faults included, of
+    signing requests, restarts, import commands, account creations and lock / unlock). -/
+theorem C11_last_is_highest (cfg : Config) (ops : List Op) (hr : NoRawImport ops) (k : Bytes) :
     (∀ e ∈ (run (init cfg []) ops).attLog, e.1 = k →
       (e.2.tgt : Int) ≤ (lastVote (run (init cfg []) ops).attLog k).tgt ∧
       (e.2.src : Int) ≤ (lastVote (run (init cfg []) ops).attLog k).src) ∧
     (∀ e ∈ (run (init cfg []) ops).propLog, e.1 = k →
       (e.2.slot : Int) ≤ lastSlot (run (init cfg []) ops).propLog k) :=
-  ⟨last_is_max_att cfg ops k, last_is_max_prop cfg ops k⟩
+  ⟨last_is_max_att cfg ops hr k, last_is_max_prop cfg ops hr k⟩
+
+/-- generalisation to histories that also contain raw rules-level imports (`Op.importRec`), each covering
+    what had been released for its key when it is applied (`SafeHist`) -/
+theorem C11_last_is_highest_with_imports (cfg : Config) (ops : List Op) (hs : SafeHist (init cfg []) ops) (k : Bytes) :
+    (∀ e ∈ (run (init cfg []) ops).attLog, e.1 = k →
+      (e.2.tgt : Int) ≤ (lastVote (run (init cfg []) ops).attLog k).tgt ∧
+      (e.2.src : Int) ≤ (lastVote (run (init cfg []) ops).attLog k).src) ∧
+    (∀ e ∈ (run (init cfg []) ops).propLog, e.1 = k →
+      (e.2.slot : Int) ≤ lastSlot (run (init cfg []) ops).propLog k) :=
+  ⟨last_is_max_att_with_imports cfg ops hs k, last_is_max_prop_with_imports cfg ops hs k⟩
 
 /-- decisions of the attestation rule depend on the store only through the fetched state -/
 theorem onAttest_verdict_congr (db db' : Db) (pk : Bytes) (r : AttReq) (f : Faults)
